@@ -14,6 +14,7 @@ import SharkVerif.Lemmas.LinSolveChol
 import SharkVerif.Lemmas.LinSolveLU
 import SharkVerif.Lemmas.LinSolveUnique
 import SharkVerif.Lemmas.LinSolveLUSolve
+import SharkVerif.Lemmas.LinSolveUpdate
 namespace SharkVerif.C02
 open SharkVerif.LinSolve
 
@@ -509,5 +510,64 @@ theorem prod_of_left_trsm (t : Tri) (n m : Nat) (A B : Mat) (c : Vec) (h : triSi
     apply sum_congr; intro k hk
     rw [sum_mul_right, ← trsm_correct_left t n m A B h i k hi hk]; rfl
   rw [h1, sum_comm, h2]
+
+/-! ## rank-one update of a Cholesky factor -/
+
+/-- **rank-one update of a Cholesky factor** (`cholesky_decomposition::update(alpha, beta, v)`, `beta ≠ 0`):
+for every size, every lower-triangular factor `L` with non-zero diagonal, every update vector (zeros
+anywhere), every `alpha` with an exact non-zero root and every `beta`: if no exception is thrown and the
+root function is exact on the values it is applied to, the updated factor satisfies
+`L' L'ᵀ = alpha L Lᵀ + beta v vᵀ`. -/
+theorem cholUpdate_correct (r : Rat → Rat) (alpha beta : Rat) (n : Nat) (L : Arr2) (v : Vec)
+    (hb : beta ≠ 0) (ha : r alpha * r alpha = alpha) (ha0 : r alpha ≠ 0)
+    (hd : ∀ j, j < n → mget L j j ≠ 0)
+    (hup : ∀ i c, i < n → c < n → i < c → mget L i c = 0)
+    (hroot : ∀ t, t < n →
+      r (updX (r alpha) beta (updRun r (r alpha) beta n L v t) t) * r (updX (r alpha) beta (updRun r (r alpha) beta n L v t) t)
+        = updX (r alpha) beta (updRun r (r alpha) beta n L v t) t)
+    (hok : (cholUpdate r alpha beta n L v).fail = false) :
+    ∀ i k, i < n → k < n →
+      sum n (fun c => mget (cholUpdate r alpha beta n L v).L i c * mget (cholUpdate r alpha beta n L v).L k c)
+        = updTarget alpha beta n L v i k := by
+  have hrun : cholUpdate r alpha beta n L v = updRun r (r alpha) beta n L v n := by
+    unfold cholUpdate updRun updInit; simp [hb]
+  rw [hrun] at hok ⊢
+  have inv := updInv_run r (r alpha) alpha beta n L v ha ha0 hd hup hroot n (Nat.le_refl n) hok
+  intro i k hi hk
+  rw [← inv.main i k hi hk]
+  have hwi : wHat n (updRun r (r alpha) beta n L v n) i = 0 := by unfold wHat; simp; intro h; omega
+  rw [hwi]
+  have : sum n (fun c => if c < n then mget (updRun r (r alpha) beta n L v n).L i c * mget (updRun r (r alpha) beta n L v n).L k c
+        else alpha * (mget L i c * mget L k c))
+      = sum n (fun c => mget (updRun r (r alpha) beta n L v n).L i c * mget (updRun r (r alpha) beta n L v n).L k c) :=
+    sum_congr fun c hc => by simp [hc]
+  rw [this]; ring
+
+/-- `beta == 0`: the factor is scaled by `sqrt(alpha)`. -/
+theorem cholUpdate_scale_correct (r : Rat → Rat) (alpha : Rat) (n : Nat) (L : Arr2) (v : Vec)
+    (ha : r alpha * r alpha = alpha) :
+    ∀ i k, i < n → k < n →
+      sum n (fun c => mget (cholUpdate r alpha 0 n L v).L i c * mget (cholUpdate r alpha 0 n L v).L k c)
+        = updTarget alpha 0 n L v i k := by
+  intro i k hi hk
+  unfold cholUpdate updTarget
+  simp only [if_true]
+  have : sum n (fun c => mget (matOf n n fun i j => r alpha * mget L i j) i c * mget (matOf n n fun i j => r alpha * mget L i j) k c)
+      = sum n (fun c => alpha * (mget L i c * mget L k c)) := by
+    apply sum_congr; intro c hc
+    rw [mget_matOf, mget_matOf]; simp only [hi, hk, hc, and_self, if_true]
+    have e : r alpha * mget L i c * (r alpha * mget L k c) = r alpha * r alpha * (mget L i c * mget L k c) := by ring
+    rw [e, ha]
+  rw [this, sum_mul_left]; ring
+
+/-- non-vacuity: `n = 1`, `L = (1)`, `alpha = 1`, `beta = 3`, `v = (1)`: the value rooted is `4`, no exception,
+and the root function below is exact on it -/
+def rEx : Rat → Rat := fun x => if x = 4 then 2 else if x = 1 then 1 else 0
+
+example : (cholUpdate rEx 1 3 1 #[#[1]] (fun _ => 1)).fail = false := by
+  norm_num [cholUpdate, iter, updStep, mget, vget, vecOf, rEx, Array.getD]
+
+example : updX (rEx 1) 3 (updRun rEx (rEx 1) 3 1 #[#[1]] (fun _ => 1) 0) 0 = 4 ∧ rEx 4 * rEx 4 = 4 := by
+  norm_num [updX, updRun, updInit, iter, mget, vget, vecOf, rEx, Array.getD]
 
 end SharkVerif.C02
